@@ -333,30 +333,59 @@ func runC05(r *core.Run) {
 		}
 		return append(append(d1, '\n'), d2...), []obsItem{{Rec: renderNewick(root)}, {Rec: renderNewick(second)}}, true, ""
 	})
-	escapeSpellingsClause(r, "newick", []string{"root-name", "inner-name", "leaf-name", "leaf-name-with-distance", "only-node"}, func(field, v string) ([]byte, []obsItem, bool, string) {
-		t := defaultNwTree([]int{2, 1, 0, 0})
-		switch field {
-		case "root-name":
-			t.Names[0] = core.S(v)
-		case "inner-name":
-			t.Names[1] = core.S(v)
-		case "leaf-name":
-			t.Names[3] = core.S(v)
-		case "leaf-name-with-distance":
-			t.Names[2], t.Dists[2] = core.S(v), "0.5"
-		default:
-			t = defaultNwTree([]int{0})
-			t.Names[0], t.Dists[0] = core.S(v), "2"
+	nwFieldNames := []string{"root-name", "inner-name", "leaf-name", "leaf-name-with-distance", "only-node", "sibling-leaves"}
+	nwFields := func(field string, vals []string) ([]byte, []obsItem, bool, string) {
+		var data []byte
+		var want []obsItem
+		add := func(t nwTree) string {
+			root := t.build()
+			d, f := writeNewickChecked(root)
+			data = append(append(data, d...), '\n')
+			want = append(want, obsItem{Rec: renderNewick(root)})
+			return f
 		}
-		root := t.build()
-		second := defaultNwTree([]int{1, 0}).build()
-		d1, f1 := writeNewickChecked(root)
-		d2, f2 := writeNewickChecked(second)
-		if f1 != "" || f2 != "" {
-			return nil, nil, true, f1 + f2
+		if field == "sibling-leaves" { // the values are the names of the leaves of ONE tree
+			code := []int{len(vals)}
+			for range vals {
+				code = append(code, 0)
+			}
+			t := defaultNwTree(code)
+			for i, v := range vals {
+				t.Names[i+1] = core.S(v)
+			}
+			if f := add(t); f != "" {
+				return nil, nil, true, f
+			}
 		}
-		return append(append(d1, '\n'), d2...), []obsItem{{Rec: renderNewick(root)}, {Rec: renderNewick(second)}}, true, ""
-	})
+		for _, v := range vals {
+			if field == "sibling-leaves" {
+				break
+			}
+			t := defaultNwTree([]int{2, 1, 0, 0})
+			switch field {
+			case "root-name":
+				t.Names[0] = core.S(v)
+			case "inner-name":
+				t.Names[1] = core.S(v)
+			case "leaf-name":
+				t.Names[3] = core.S(v)
+			case "leaf-name-with-distance":
+				t.Names[2], t.Dists[2] = core.S(v), "0.5"
+			default:
+				t = defaultNwTree([]int{0})
+				t.Names[0], t.Dists[0] = core.S(v), "2"
+			}
+			if f := add(t); f != "" {
+				return nil, nil, true, f
+			}
+		}
+		if f := add(defaultNwTree([]int{1, 0})); f != "" {
+			return nil, nil, true, f
+		}
+		return data, want, true, ""
+	}
+	escapeSpellingsClause(r, "newick", nwFieldNames, nwFields)
+	relativesClause(r, "newick", nwFieldNames, nwFields)
 	interleavedReadersFor(r, []string{"newick"})
 	consumerMutatesRecords(r, []string{"newick"})
 	bigFiles(r, "newick", []int{0})
